@@ -4,8 +4,8 @@
    every statement is for all shapes (any number of rows, any row lengths). *)
 Require Import Cherab.Common.Qx.
 Require Import Cherab.Model.C11_Sart Cherab.Model.C11_Kkt Cherab.Model.C11_Check Cherab.Model.C11_Round.
-Require Import Cherab.Proofs.C11_Sart Cherab.Proofs.C11_Kkt Cherab.Proofs.C11_Check Cherab.Proofs.C11_More Cherab.Proofs.C11_Round.
-From Coq Require Import Qabs Lqa.
+Require Import Cherab.Proofs.C11_Sart Cherab.Proofs.C11_Kkt Cherab.Proofs.C11_Check Cherab.Proofs.C11_More Cherab.Proofs.C11_Round Cherab.Proofs.C11_Order.
+From Coq Require Import Qabs Lqa Permutation.
 Open Scope Q_scope.
 
 (* --- SART ----------------------------------------------------------------------------------- *)
@@ -278,6 +278,44 @@ Proof.
   intros Hs Hn x rn H. eapply nnls_wrapper_rnorm_nonneg; eassumption.
 Qed.
 Print Assumptions C11_nnls_wrapper_error_and_norm_sign.
+
+(* --- added in the second deepening round --------------------------------------------------------- *)
+
+(* ORDER INVARIANCE (until now only tested by the search): the observations - rows of the geometry matrix together
+   with their measurements - in any other order give the same sweep, the same convergence value, and for the whole
+   inversion the same solution, convergence list and number of sweeps *)
+Theorem C11_sart_sweep_order_invariant :
+  forall relax (rows rows' : list (vec * Q)) x, Permutation rows rows' ->
+  Forall2 Qeq (sart_step relax (map fst rows) (map snd rows) x) (sart_step relax (map fst rows') (map snd rows') x)
+  /\ conv (map fst rows) (map snd rows) x == conv (map fst rows') (map snd rows') x.
+Proof. intros; split; [apply sart_step_order_invariant | apply conv_order_invariant]; assumption. Qed.
+Print Assumptions C11_sart_sweep_order_invariant.
+
+Theorem C11_sart_inversion_order_invariant :
+  forall e1 n (rows rows' : list (vec * Q)) g maxit relax tol, Permutation rows rows' ->
+  result_eq (invert_sart e1 n (map fst rows) (map snd rows) g maxit relax tol)
+            (invert_sart e1 n (map fst rows') (map snd rows') g maxit relax tol).
+Proof. exact invert_sart_order_invariant. Qed.
+Print Assumptions C11_sart_inversion_order_invariant.
+
+(* the binary64 rounding model used for the exact replay of the stopping rule: absolute error at most half a quantum
+   everywhere, relative error at most 2^-53 in the normal range, at most 2^-1075 in the subnormal range *)
+Theorem C11_round53_error_bounds :
+  forall q, Qabs (round53 q - q) <= (1#2) * pow2 (quantum q)
+  /\ ((-1074 <= ilog2 q - 52)%Z -> Qabs (round53 q - q) <= pow2 (-53) * Qabs q)
+  /\ ((ilog2 q - 52 < -1074)%Z -> Qabs (round53 q - q) <= pow2 (-1075)).
+Proof.
+  intro q; split; [apply round53_abs_error | split; [apply round53_rel_error | apply round53_subnormal_error]].
+Qed.
+Print Assumptions C11_round53_error_bounds.
+
+(* outside one rounding error of the tolerance the implementation's (floating-point) stopping decision is the
+   model's (exact) decision *)
+Theorem C11_float_stop_decision_is_exact_outside_rounding_margin :
+  forall d tol, 0 <= d -> (-1074 <= ilog2 d - 52)%Z -> pow2 (-53) * d < Qabs (d - tol) ->
+  Qle_bool tol (round53 d) = Qle_bool tol d.
+Proof. exact stop_decision_robust. Qed.
+Print Assumptions C11_float_stop_decision_is_exact_outside_rounding_margin.
 
 (* non-vacuity: a 2x2 system whose exact solution satisfies the hypotheses of the fixed-point theorem,
    and a point that passes the exact KKT certificate *)
